@@ -148,7 +148,60 @@ fn collections_differ(resp: &Response) -> Option<String> {
 /// the key; `get` removes exactly that field and leaves the others in order (observed through every iterator, `fields_len`
 /// and `size_hint`); repeated `get`s of a key yield its values in wire order.  Returns a description of the first deviation.
 pub fn accessors_differ(resp: &Response) -> Option<String> {
+    // the response as a whole: its summary accessors against what iterating it shows
+    let ok_frames = resp.frames().filter(|f| f.is_ok()).count();
+    let has_err = resp.frames().any(|f| f.is_err());
+    if resp.is_error() != has_err || resp.is_success() == has_err || resp.successful_frames() != ok_frames {
+        return Some(format!("is_error()={} is_success()={} successful_frames()={} but iterating yields {ok_frames} frames and {} error",
+                            resp.is_error(), resp.is_success(), resp.successful_frames(), if has_err { "an" } else { "no" }));
+    }
+    let total = ok_frames + has_err as usize;
+    if resp.frames().len() != total || resp.clone().into_iter().len() != total || resp.into_iter().len() != total {
+        return Some(format!("len() of a frames iterator is not the {total} items it yields"));
+    }
+    {
+        // the error, if any, is the last item; exhausted iterators stay exhausted; len() counts down with next() / next_back()
+        let mut it = resp.frames();
+        let mut left = total;
+        let mut seen_err = false;
+        while let Some(x) = it.next() {
+            if seen_err {
+                return Some("an item after the error frame".into());
+            }
+            seen_err = x.is_err();
+            left -= 1;
+            if it.len() != left {
+                return Some(format!("frames().len() = {} after taking {} of {total} items", it.len(), total - left));
+            }
+        }
+        if it.next().is_some() || it.next_back().is_some() || it.next().is_some() {
+            return Some("an exhausted frames iterator yields an item again".into());
+        }
+        let mut it = resp.clone().into_iter();
+        let mut n = 0;
+        while it.next_back().is_some() {
+            n += 1;
+            if it.len() != total - n {
+                return Some(format!("into_iter().len() = {} after taking {n} of {total} items from the back", it.len()));
+            }
+        }
+        if it.next().is_some() || it.next_back().is_some() {
+            return Some("an exhausted owning frames iterator yields an item again".into());
+        }
+        match (resp.clone().into_single_frame(), resp.frames().next()) {
+            (Ok(a), Some(Ok(b))) if a.fields().eq(b.fields()) && a.binary() == b.binary() => {}
+            (Err(a), Some(Err(b))) if a == *b => {}
+            _ => return Some("into_single_frame() is not the first item of frames()".into()),
+        }
+    }
     for f in resp.frames().flatten() {
+        {
+            let mut it = f.fields();
+            while it.next().is_some() {}
+            if it.next().is_some() || it.next_back().is_some() {
+                return Some("an exhausted fields() iterator yields an item again".into());
+            }
+        }
         let base: Vec<(String, String)> = f.fields().map(|(k, v)| (k.to_string(), v.to_string())).collect();
         let n = base.len();
         let show = |l: &[(String, String)]| l.iter().map(|(k, v)| format!("{k:?}={v:?}")).collect::<Vec<_>>().join(",");
